@@ -27,6 +27,7 @@ fn main() {
         ("corr", "C01") => trace::corr("C01", seed, n),
         ("corr", "C11") => trace::corr("C11", seed, n),
         ("corr", "C12") => trace::corr("C12", seed, n),
+        ("corr", "C08") => corr_misc::corr_c08(seed, n),
         ("corr", "C15") => corr_misc::corr_c15(seed, n),
         ("corr", "C19") => corr_misc::corr_c19(seed, n),
         ("corr", "C04") => c04::corr(seed, n),
